@@ -61,7 +61,8 @@ def run_e2e(ctx, n, tag):
     rng = ctx.rng
     base = os.path.join(common.REPO, "test", ".ti-config")
     jobs = []
-    corpus = rng.sample(common.corpus_files(), n)
+    cf_all = common.corpus_files()
+    corpus = rng.sample(cf_all, min(n, len(cf_all)))
     texts = [open(f, errors="replace").read() for f in corpus] + [progs.gen_program(rng, base, level=rng.choice([2, 3, 4])) for _ in range(n)]
     texts += [a for a in AIMED for _ in range(max(5, n // 12))]
     for i, t in enumerate(texts):
